@@ -358,3 +358,48 @@ def check_variable_remap(ix, rep, rule='R-REMAP'):
                  'it returns: after pastify() get_value(v) of an input variable next to a future operator is the delayed copy -- `out = (eventually[0,2](a >= 1)) and b`: get_value(\'b\') is -inf, -inf, '
                  'b[0], b[1], ... instead of the data supplied' % wrappers[0].func.id, vis.node.lineno)
     return 1
+
+
+# ------------------------------------------------------------------------------------------------- R-SEAM (dense-time online, unary operations with a frontier)
+def check_seam(ix, rep, rule='R-SEAM'):
+    """the output of every dense-time online operation ends with a closing sample at the time R of its last input sample, and its next output may start
+    at R again: consecutive chunks *between operators* overlap in the sample on the seam.  The binary operations drop it when they glue the new chunk
+    to their buffers.  An operation that remembers R (`self.X = sample[-1][0]`) and builds influence intervals from consecutive samples has to do the
+    same: otherwise the repeated sample opens a zero-length interval, the operation emits two samples with one time-stamp, and the merge kernel of the
+    next binary operator raises 'Unexpected case in the intersection'"""
+    n = 0
+    for mn, m in sorted(ix.modules.items()):
+        if not (mn.startswith('rtamt.semantics.stl.dense_time.online.') or mn.startswith('rtamt.semantics.arithmetic.dense_time.online.')):
+            continue
+        for c in m.classes.values():
+            f = c.methods.get('update')
+            if f is None or len(f.node.args.args) < 2:
+                continue
+            params = [a.arg for a in f.node.args.args[1:]]
+            frontier = None
+            for st in ast.walk(f.node):
+                if isinstance(st, ast.Assign) and len(st.targets) == 1 and _self_attr(st.targets[0]):
+                    v = ast.unparse(st.value).replace(' ', '')
+                    for p in params:
+                        if v in ('%s[-1][0]' % p, '%s[len(%s)-1][0]' % (p, p)):
+                            frontier = (st.targets[0].attr, p, st)
+            if frontier is None:
+                continue
+            attr, p, st = frontier
+            n += 1
+            rep.analysed(f)
+            ok = False
+            for cmp_ in ast.walk(f.node):
+                if isinstance(cmp_, ast.Compare) and len(cmp_.ops) == 1 and isinstance(cmp_.ops[0], (ast.Eq, ast.LtE)):
+                    l, r = ast.unparse(cmp_.left).replace(' ', ''), ast.unparse(cmp_.comparators[0]).replace(' ', '')
+                    if {'%s[0][0]' % p, 'self.%s' % attr} == {l, r}:
+                        ok = True
+            slot = 'seam:%s' % c.name
+            if ok:
+                rep.ok(rule, m.rel, '%s.update' % c.name, slot, 'a first sample that repeats the time-stamp of the last one received is recognised (compared with self.%s)' % attr, st.lineno)
+            else:
+                rep.fail(rule, m.rel, '%s.update' % c.name, slot, 'update() remembers the time of its last input sample in self.%s but never compares the first sample of the next chunk with it: the sample '
+                         'on the seam, which every upstream operation emits twice (closing sample of one output, first sample of the next), is processed as a new sample of length 0 -- '
+                         '`out = a or historically[0,2](once[0,1](a))`, a = [[0,1],[1,3],[2,2],[3,0.5],[4,4],[5,1],[6,2]] fed as a[:2], a[2:]: RTAMTException "Unexpected case in the '
+                         'intersection"; in one chunk: [[0,1],[1,3],[2,2],[4,4],[5,2],[6,2]]' % attr, st.lineno)
+    return n
